@@ -111,7 +111,11 @@ def get_text_from(path, encoding=None) -> str:
                 # All of the bytes weren't decodeable, maybe the initial
                 # sequence is (as above)?
                 path.seek(position)  # Reset after the previous .read():
-                s = decode_by_char(path)
+                # A text-mode stream decodes a whole buffer at a time, so
+                # its read(1) fails at once when any byte of that buffer is
+                # bad, even one far behind the label: read the underlying
+                # bytes, if there are any, one by one.
+                s = decode_by_char(getattr(path, "buffer", path))
 
         else:
             # Not a path, not an already-opened file.
@@ -202,8 +206,12 @@ def loads(s: str, parser=None, grammar=None, decoder=None, **kwargs):
 
     if isinstance(s, bytes):
         # Someone passed us an old-style bytes sequence.  Although it isn't
-        # a string, we can deal with it:
-        s = s.decode()
+        # a string, we can deal with it (and if an attached label is
+        # followed by bytes that are not text, with its decodable part):
+        try:
+            s = s.decode()
+        except UnicodeDecodeError:
+            s = decode_by_char(io.BytesIO(s))
 
     if parser is None:
         parser = OmniParser(grammar=grammar, decoder=decoder, **kwargs)
